@@ -344,8 +344,10 @@ def _split_expr_over_interface(expr, interface, tests=None, trials=None):
                     mapping = list(mapping)[0]
                     newexpr = newexpr.subs(mapping, mapping.plus)
 
-                for nn in newexpr.atoms(NormalVector):
-                    newexpr = newexpr.replace(nn, -nn)
+                # every normal is reversed exactly once (a sequence of `replace` calls could reverse
+                # PlusNormalVector('n') a second time while replacing NormalVector('n'), depending on
+                # the iteration order of the set of atoms, i.e. on the hash seed)
+                newexpr = newexpr.xreplace({nn: -nn for nn in newexpr.atoms(NormalVector)})
 
                 if not is_zero(newexpr):
                     if interface.plus in bnd_expressions:
@@ -423,8 +425,7 @@ def _split_expr_over_interface(expr, interface, tests=None, trials=None):
                 newexpr = newexpr.subs(mapping, mapping.plus)
 
             # on the plus side the outward normal is reversed (as for bilinear forms)
-            for nn in newexpr.atoms(NormalVector):
-                newexpr = newexpr.replace(nn, -nn)
+            newexpr = newexpr.xreplace({nn: -nn for nn in newexpr.atoms(NormalVector)})
 
             if not is_zero(newexpr):
                 if interface.plus in bnd_expressions:
